@@ -576,3 +576,42 @@ func TestC16Concurrent(t *testing.T) {
 		hC16.Class("concurrent-clients-round")
 	}
 }
+
+// TestC16RealClients: the clients as the library's constructors set them up, against the kernel's audit socket,
+// with the one status command that changes nothing: GetStatus (AUDIT_GET). Whatever the constructor — the
+// unicast client or the one that joins the read-log multicast group — the command goes out and the kernel's
+// status comes back, the same from both (the kernel answers AUDIT_GET on any audit socket alike).
+func TestC16RealClients(t *testing.T) {
+	uni, err := libaudit.NewAuditClient(nil)
+	if err != nil {
+		hC16.Class("no-audit-socket")
+		t.Skipf("NewAuditClient: %v", err)
+	}
+	defer uni.Close()
+	multi, err := libaudit.NewMulticastAuditClient(nil)
+	if err != nil {
+		hC16.Class("no-multicast-audit-socket")
+		t.Skipf("NewMulticastAuditClient: %v", err)
+	}
+	defer multi.Close()
+	for round := 0; round < 5; round++ {
+		c := C16Case{Kind: "realclients"}
+		hC16.Eval()
+		su, err := uni.GetStatus()
+		if err != nil {
+			t.Fatalf("VERIF-HARNESS GetStatus on the client NewAuditClient returns: %v", err) // (the suite's own precondition)
+		}
+		sm, err := multi.GetStatus()
+		if err != nil {
+			hC16.Fail(t, "TestC16", c, "GetStatus on the client NewMulticastAuditClient returns: %v (the same command on the client NewAuditClient returns works)", err)
+		}
+		su2, err := uni.GetStatus()
+		if err != nil || su2.Enabled != su.Enabled || su2.Failure != su.Failure || su2.PID != su.PID || su2.RateLimit != su.RateLimit || su2.BacklogLimit != su.BacklogLimit {
+			continue // somebody else changed the configuration in between: nothing to compare
+		}
+		if su.Enabled != sm.Enabled || su.Failure != sm.Failure || su.PID != sm.PID || su.RateLimit != sm.RateLimit || su.BacklogLimit != sm.BacklogLimit || su.FeatureBitmap != sm.FeatureBitmap {
+			hC16.Fail(t, "TestC16", c, "the two clients decode the kernel's status differently: %+v and %+v", *su, *sm)
+		}
+		hC16.Class("status-from-both-real-clients")
+	}
+}
